@@ -3,7 +3,6 @@ package req
 import (
 	"io"
 	"net/http"
-	"strings"
 	"time"
 
 	"github.com/imroc/req/v3/internal/header"
@@ -182,9 +181,9 @@ func (r *Response) Unmarshal(v interface{}) error {
 	}
 	v = util.GetPointer(v)
 	contentType := r.GetContentType() // r.Response may be nil (no http response and no error recorded)
-	if strings.Contains(contentType, "json") {
+	if util.IsJSONType(contentType) {
 		return r.UnmarshalJson(v)
-	} else if strings.Contains(contentType, "xml") {
+	} else if util.IsXMLType(contentType) {
 		return r.UnmarshalXml(v)
 	}
 	return r.UnmarshalJson(v)
